@@ -218,10 +218,13 @@ func MarshalToFunc[T any](fn func(*jsontext.Encoder, T) error) *Marshalers {
 		fnc: func(enc *jsontext.Encoder, va addressableValue, mo *jsonopts.Struct) error {
 			xe := export.Encoder(enc)
 			prevDepth, prevLength := xe.Tokens.DepthLength()
+			wasWithin := xe.Flags.Get(jsonflags.WithinArshalCall) // an enclosing user call keeps the coder locked
 			xe.Flags.Set(jsonflags.WithinArshalCall | 1)
 			v, _ := reflect.TypeAssert[T](va.castTo(t))
 			err := fn(enc, v)
-			xe.Flags.Set(jsonflags.WithinArshalCall | 0)
+			if !wasWithin {
+				xe.Flags.Set(jsonflags.WithinArshalCall | 0)
+			}
 			currDepth, currLength := xe.Tokens.DepthLength()
 			if err == nil && (prevDepth != currDepth || prevLength+1 != currLength) {
 				err = errNonSingularValue
@@ -305,10 +308,13 @@ func UnmarshalFromFunc[T any](fn func(*jsontext.Decoder, T) error) *Unmarshalers
 			if prevDepth == 1 && xd.AtEOF() {
 				return io.EOF // check EOF early to avoid fn reporting an EOF
 			}
+			wasWithin := xd.Flags.Get(jsonflags.WithinArshalCall) // an enclosing user call keeps the coder locked
 			xd.Flags.Set(jsonflags.WithinArshalCall | 1)
 			v, _ := reflect.TypeAssert[T](va.castTo(t))
 			err := fn(dec, v)
-			xd.Flags.Set(jsonflags.WithinArshalCall | 0)
+			if !wasWithin {
+				xd.Flags.Set(jsonflags.WithinArshalCall | 0)
+			}
 			currDepth, currLength := xd.Tokens.DepthLength()
 			if err == nil && (prevDepth != currDepth || prevLength+1 != currLength) {
 				err = errNonSingularValue
